@@ -396,7 +396,7 @@ func buildWorld(c *Case) *World {
 	sort.Strings(w.rootNames)
 
 	w.funcs = w.baseFuncs()
-	w.funcCtx = &hcl.EvalContext{Functions: w.funcs}
+	w.funcCtx = &hcl.EvalContext{Functions: w.funcs, Variables: varsMap(c.Shared)}
 	pf, diags := hclsyntax.ParseConfig([]byte(c.Prelude), "prelude.hcl", hcl.InitialPos)
 	sd = append(sd, diags...)
 	ufs, _, diags := userfunc.DecodeUserFunctions(pf.Body, "function", func() *hcl.EvalContext { return w.funcCtx })
